@@ -125,6 +125,21 @@ func (c *Calcium) doCreateWorkloads(ctx context.Context, opts *types.DeployOptio
 
 					// commit changes
 					processingCommits = make(map[string]wal.Commit)
+					defer func() {
+						if err == nil {
+							return
+						}
+						// the rollback of this txn does nothing for a failure of its first phase:
+						// give back here, still under the pod lock, what was allocated before the failure
+						for nodename, resources := range workloadResourcesMap {
+							if len(resources) == 0 {
+								continue
+							}
+							if e := c.rmgr.RollbackAlloc(utils.NewInheritCtx(ctx), nodename, resources); e != nil {
+								logger.Errorf(ctx, e, "failed to rollback allocation on %s", nodename)
+							}
+						}
+					}()
 					for nodename, deploy := range deployMap {
 						nodes = append(nodes, nodeMap[nodename])
 						if workloadResourcesMap[nodename], engineParamsMap[nodename], err = c.rmgr.Alloc(ctx, nodename, deploy, opts.Resources); err != nil {
